@@ -226,7 +226,9 @@ def register(props):
                       "bound): Unserialize, Validate, Serialize and data-mode ValidateCompatibility return Ok or Err - never Panic, "
                       "never OutOfFuel (so they terminate), under no_inline_cycle and defaults_total K; both hypotheses are boolean, "
                       "evaluated by the model on every case, and refuted where they fail (C04_inline_cycle_refuted, "
-                      "C04_default_cycle_refuted: no fuel suffices).",
+                      "C04_default_cycle_refuted: no fuel suffices). The same theorems hold under wf_use, i.e. wf_schema without the conjunct "
+                      "'every object of a scope is stored under its own id' which no operation reads (C04_wf_schema_iff_use, "
+                      "C04_total_use, C04_never_panics_use) - the form C10 needs for schemas received as descriptions.",
         "level_note": "Model = Schema/Ops.v (map-based objects); Schema/Wf.v (constructor contracts), Schema/Total.v (bound). Tied to the "
                       "code by outcome-class correspondence on every call; struct-mapped objects are covered by the direct check only "
                       "(partial).",
